@@ -95,6 +95,9 @@ def run(tier):
     for i, (nf, np_, o) in enumerate(acc_shapes):
         scen.append({"acc": True, "nfixed": nf, "nperm": np_, "order": o, "lhs_fixed": i % 3 == 2, "lhs_len": 1 + i % 3, "rhs_len": 1 + (i + 1) % 3,
                      "seed": rng.randrange(1, 1000), "max_edits": 10, "offset": rng.randrange(0, 50)})
+    # plain and committed public inputs side by side (the committed column carries its own count)
+    for np_, nc in ([(2, 1), (0, 2), (3, 3)] if tier == "quick" else [(a, b) for a in (0, 1, 3, 8) for b in (0, 1, 2, 5)]):
+        scen.append({"committed": True, "np": np_, "nc": nc, "seed": rng.randrange(1, 1000)})
     rng.shuffle(scen)
     chunks = [scen[i::vlib.NCPU] for i in range(vlib.NCPU)]
     jobs = []
@@ -107,7 +110,13 @@ def run(tier):
     row_sets = [vlib.read_ndjson(j[2]) for j in jobs]
     pubs = [r for rows in row_sets for r in rows if r["ev"] == "Pub"]
     good, rejected, st = vlib.validate_many(row_sets, "PubIn_Trace.tla", "PubIn_Trace.cfg", "C08", "pub",
-                                            max_rejects=8, start_ev=("Pub", "Acc"))
+                                            max_rejects=8, start_ev=("Pub", "Acc", "PubC"))
+    for run_rows, line, e in [x for x in rejected if x[2]["ev"] == "PubC"]:
+        rep.violation({"clause": "committed_instances", "types": ["native"], "vk_nb_is_plain_count": e["vk_nb"] == e["np"]},
+                      f"relation with {e['np']} plain and {e['nc']} committed public inputs: key records {e['vk_nb']}, verify={e['verify']} shorter={e['verify_shorter']} "
+                      f"longer={e['verify_longer']} padded={e['verify_padded']} other_commitment={e['verify_other_commitment']} none={e['verify_no_commitment']}",
+                      {"scenario": {"committed": True, "np": e["np"], "nc": e["nc"]}})
+    rejected = [x for x in rejected if x[2]["ev"] != "PubC"]
     accs = [r for rows in row_sets for r in rows if r["ev"] == "Acc"]
     for run_rows, line, e in [x for x in rejected if x[2]["ev"] == "Acc"]:
         clause = ("panic" if e["status"] == "panic" else "circuit_binds_other_vector" if e["status"] != "sat" or e["exposed"] != e["offchain"]
@@ -165,12 +174,12 @@ def run(tier):
 def replay(path):
     d = json.load(open(path))
     wd = vlib.workdir("C08")
-    if d["replay"].get("scenario", {}).get("acc"):
+    if d["replay"].get("scenario", {}).get("acc") or d["replay"].get("scenario", {}).get("committed"):
         sp = os.path.join(wd, "replay_scen.ndjson")
         vlib.write_ndjson(sp, [d["replay"]["scenario"]])
         tp = os.path.join(wd, "replay_trace.ndjson")
         vlib.run_vh(["c08", sp, tp])
-        good, rejected, _ = vlib.validate_runs(vlib.read_ndjson(tp), "PubIn_Trace.tla", "PubIn_Trace.cfg", "C08", "replay", start_ev="Acc")
+        good, rejected, _ = vlib.validate_runs(vlib.read_ndjson(tp), "PubIn_Trace.tla", "PubIn_Trace.cfg", "C08", "replay", start_ev=("Acc", "PubC"))
         if rejected:
             log(f"VIOLATION property=C08 replay={path}")
             return 1
